@@ -61,17 +61,17 @@ func (l *recLogger) Debug(msg string, args ...interface{}) { l.add(2, msg, args)
 func (l *recLogger) Info(msg string, args ...interface{})  { l.add(3, msg, args) }
 func (l *recLogger) Warn(msg string, args ...interface{})  { l.add(4, msg, args) }
 func (l *recLogger) Error(msg string, args ...interface{}) { l.add(5, msg, args) }
-func (l *recLogger) IsTrace() bool                          { return true }
-func (l *recLogger) IsDebug() bool                          { return true }
-func (l *recLogger) IsInfo() bool                           { return true }
-func (l *recLogger) IsWarn() bool                           { return true }
-func (l *recLogger) IsError() bool                          { return true }
-func (l *recLogger) ImpliedArgs() []interface{}             { return nil }
-func (l *recLogger) With(args ...interface{}) hclog.Logger  { return l }
-func (l *recLogger) Name() string                           { return "rec" }
-func (l *recLogger) Named(name string) hclog.Logger         { return &namedRec{l, name} }
-func (l *recLogger) ResetNamed(name string) hclog.Logger    { return &namedRec{l, name} }
-func (l *recLogger) SetLevel(level hclog.Level)             {}
+func (l *recLogger) IsTrace() bool                         { return true }
+func (l *recLogger) IsDebug() bool                         { return true }
+func (l *recLogger) IsInfo() bool                          { return true }
+func (l *recLogger) IsWarn() bool                          { return true }
+func (l *recLogger) IsError() bool                         { return true }
+func (l *recLogger) ImpliedArgs() []interface{}            { return nil }
+func (l *recLogger) With(args ...interface{}) hclog.Logger { return l }
+func (l *recLogger) Name() string                          { return "rec" }
+func (l *recLogger) Named(name string) hclog.Logger        { return &namedRec{l, name} }
+func (l *recLogger) ResetNamed(name string) hclog.Logger   { return &namedRec{l, name} }
+func (l *recLogger) SetLevel(level hclog.Level)            {}
 func (l *recLogger) StandardLogger(*hclog.StandardLoggerOptions) *log.Logger {
 	return log.New(io.Discard, "", 0)
 }
@@ -91,23 +91,25 @@ func (n *namedRec) add(level int, msg string, args []interface{}) {
 	n.parent.recs = append(n.parent.recs, rec{level + 100, msg, append([]interface{}{}, args...)})
 	n.parent.mu.Unlock()
 }
-func (n *namedRec) Log(level hclog.Level, msg string, args ...interface{}) { n.add(int(level), msg, args) }
-func (n *namedRec) Trace(msg string, args ...interface{})                 { n.add(1, msg, args) }
-func (n *namedRec) Debug(msg string, args ...interface{})                 { n.add(2, msg, args) }
-func (n *namedRec) Info(msg string, args ...interface{})                  { n.add(3, msg, args) }
-func (n *namedRec) Warn(msg string, args ...interface{})                  { n.add(4, msg, args) }
-func (n *namedRec) Error(msg string, args ...interface{})                 { n.add(5, msg, args) }
-func (n *namedRec) IsTrace() bool                                         { return true }
-func (n *namedRec) IsDebug() bool                                         { return true }
-func (n *namedRec) IsInfo() bool                                          { return true }
-func (n *namedRec) IsWarn() bool                                          { return true }
-func (n *namedRec) IsError() bool                                         { return true }
-func (n *namedRec) ImpliedArgs() []interface{}                            { return nil }
-func (n *namedRec) With(args ...interface{}) hclog.Logger                 { return n }
-func (n *namedRec) Name() string                                          { return n.name }
-func (n *namedRec) Named(name string) hclog.Logger                        { return n }
-func (n *namedRec) ResetNamed(name string) hclog.Logger                   { return n }
-func (n *namedRec) SetLevel(level hclog.Level)                            {}
+func (n *namedRec) Log(level hclog.Level, msg string, args ...interface{}) {
+	n.add(int(level), msg, args)
+}
+func (n *namedRec) Trace(msg string, args ...interface{}) { n.add(1, msg, args) }
+func (n *namedRec) Debug(msg string, args ...interface{}) { n.add(2, msg, args) }
+func (n *namedRec) Info(msg string, args ...interface{})  { n.add(3, msg, args) }
+func (n *namedRec) Warn(msg string, args ...interface{})  { n.add(4, msg, args) }
+func (n *namedRec) Error(msg string, args ...interface{}) { n.add(5, msg, args) }
+func (n *namedRec) IsTrace() bool                         { return true }
+func (n *namedRec) IsDebug() bool                         { return true }
+func (n *namedRec) IsInfo() bool                          { return true }
+func (n *namedRec) IsWarn() bool                          { return true }
+func (n *namedRec) IsError() bool                         { return true }
+func (n *namedRec) ImpliedArgs() []interface{}            { return nil }
+func (n *namedRec) With(args ...interface{}) hclog.Logger { return n }
+func (n *namedRec) Name() string                          { return n.name }
+func (n *namedRec) Named(name string) hclog.Logger        { return n }
+func (n *namedRec) ResetNamed(name string) hclog.Logger   { return n }
+func (n *namedRec) SetLevel(level hclog.Level)            {}
 func (n *namedRec) StandardLogger(*hclog.StandardLoggerOptions) *log.Logger {
 	return log.New(io.Discard, "", 0)
 }
